@@ -607,9 +607,35 @@ def wiring_set(o):
     return sorted(json.dumps([e["fn"], e["args"]], sort_keys=True) for e in enters(o))
 
 
-def wiring_list(o, multi=()):
+def mask_soft(t, val):
+    """the rendered value of a parameter with the contents of its soft value-group fields blanked"""
+    if "st" in t and isinstance(val, dict) and "obj" in val:
+        fields = [f for f in t["st"] if f["x"] and f["t"].get("u") not in (1, 2)]
+        if len(fields) != len(val["obj"]):
+            return val
+        out = []
+        for f, v in zip(fields, val["obj"]):
+            parts = f.get("tags", {}).get("group", "").split(",")
+            if parts[0] and "soft" in parts[1:]:
+                out.append("soft-group")
+            elif is_in_struct(f["t"]):
+                out.append(mask_soft(f["t"], v))
+            else:
+                out.append(v)
+        return {"obj": out}
+    return val
+
+
+def wiring_list(o, multi=(), soft_fns=None):
     """(fn, args) of every function entered during one operation; execution counters of functions registered
-    more than once are masked (which of two nodes of one function runs first may depend on the order)"""
+    more than once are masked (which of two nodes of one function runs first may depend on the order).
+    With soft_fns (id -> function), the contents of soft value-group parameters are blanked as well."""
+    def soft(e):
+        f = (soft_fns or {}).get(e["fn"])
+        if f is None or f.get("variadic") or len(f["in"]) != len(e["args"]):
+            return e["args"]
+        return [mask_soft(t, v) if is_in_struct(t) else v for t, v in zip(f["in"], e["args"])]
+
     def canon(v):
         if isinstance(v, dict):
             if "tok" in v and v["tok"][0] in multi:
@@ -619,7 +645,7 @@ def wiring_list(o, multi=()):
         if isinstance(v, list):
             return [canon(x) for x in v]
         return v
-    return [json.dumps([e["fn"], canon(e["args"])], sort_keys=True) for e in enters(o)]
+    return [json.dumps([e["fn"], canon(soft(e))], sort_keys=True) for e in enters(o)]
 
 
 def twin_c16(prog, impl_run, rnd):
@@ -671,7 +697,11 @@ def twin_c16(prog, impl_run, rnd):
             idx = list(range(0, lo)) + [k] + list(range(lo, k)) + list(range(k + 1, len(ops)))
             variants.append(("scope creation op %d moved before ops %d..%d" % (k, lo, k - 1), p, idx))
     for (what, p, idx) in variants:
-        bad += compare_variant(what, ops, res, t0, impl_run(p), idx)
+        t1 = impl_run(p)
+        b = compare_variant(what, ops, res, t0, t1, idx)
+        if b and "F19" in open_finding_ids() and is_f19(ops, res, t0, t1, idx, what, fn_table(base)):
+            b = [KNOWN_PREFIX + "F19 " + b[0]]
+        bad += b
     # DeferAcyclicVerification: compared against the eager run, and only when the eager run reports no cycle
     eager = copy.deepcopy(base)
     set_cfg(eager, "defer", False)
@@ -684,7 +714,46 @@ def twin_c16(prog, impl_run, rnd):
     return bad, base
 
 
-def compare_variant(what, ops, res, t0, t1, idx):
+KNOWN_PREFIX = "KNOWN-FINDING "
+_OPEN_IDS = None
+
+
+def open_finding_ids():
+    """ids (F19, ...) of the `open:` entries of KNOWN_FINDINGS.txt; read once, never written"""
+    global _OPEN_IDS
+    if _OPEN_IDS is None:
+        import os
+        import re as _re
+        path = os.path.join(os.path.dirname(os.path.dirname(os.path.abspath(__file__))), "KNOWN_FINDINGS.txt")
+        ids = set()
+        if os.path.exists(path):
+            for line in open(path):
+                if line.startswith("open:"):
+                    ids |= set(_re.findall(r"\bF\d+\b", line))
+        _OPEN_IDS = ids
+    return _OPEN_IDS
+
+
+def is_f19(ops, res, t0, t1, idx, what, fns):
+    """finding F19, and nothing else: a *failed* Invoke ran a different set of functions in the two orders (the members
+    of a hard value group are called in registration order up to the first failure, and what they returned stays
+    stored), and the two histories differ only in the contents of *soft* value-group parameters afterwards"""
+    r1 = ops_of(t1)
+    if len(r1) != len(res):
+        return False
+    earlier = False
+    for newpos, old in enumerate(idx):
+        if ops[old]["op"] == "invoke" and res[old]["v"] != "ok" and r1[newpos]["v"] != "ok":
+            fa = sorted(e["fn"] for e in enters(res[old]))
+            fb = sorted(e["fn"] for e in enters(r1[newpos]))
+            if fa != fb:
+                earlier = True
+    if not earlier:
+        return False
+    return not compare_variant(what, ops, res, t0, t1, idx, soft_fns=fns)
+
+
+def compare_variant(what, ops, res, t0, t1, idx, soft_fns=None):
     """compare the results of a variant history (new position -> old index in idx) with the base.
 
     Wiring of a successful Invoke = the arguments handed to the invoked function (provenance tokens, deep) and the
@@ -705,7 +774,7 @@ def compare_variant(what, ops, res, t0, t1, idx):
     acc = set()
     for k, o in enumerate(res):
         seen_a[k] = set(acc)
-        acc |= set(wiring_list(o, multi))
+        acc |= set(wiring_list(o, multi, soft_fns))
     acc_b = set()
     for newpos, old in enumerate(idx):
         a, b = res[old], r1[newpos]
@@ -716,7 +785,7 @@ def compare_variant(what, ops, res, t0, t1, idx):
             if vclass(a["v"]) != vclass(b["v"]):
                 return ["%s: Invoke op %d verdict %s vs %s" % (what, old, json.dumps(a["v"])[:120], json.dumps(b["v"])[:120])]
             if a["v"] == "ok":
-                wa, wb = wiring_list(a, multi), wiring_list(b, multi)
+                wa, wb = wiring_list(a, multi, soft_fns), wiring_list(b, multi, soft_fns)
                 if bool(wa) != bool(wb) or (wa and wa[-1] != wb[-1]):
                     return ["%s: Invoke op %d hands different values to the invoked function" % (what, old)]
                 for w in wa:
@@ -725,7 +794,7 @@ def compare_variant(what, ops, res, t0, t1, idx):
                 for w in wb:
                     if w not in wa and w not in seen_a[old]:
                         return ["%s: Invoke op %d wires different values (%s only in the changed order)" % (what, old, w[:100])]
-        acc_b |= set(wiring_list(b, multi))
+        acc_b |= set(wiring_list(b, multi, soft_fns))
     return []
 
 
